@@ -45,6 +45,10 @@ pub struct Case {
     pub lsp: bool,
     pub text_style: bool,
     pub extras: u8,
+    /// (text shape with an explicit text-loc only) 1..=9: the element is positioned at that location of an anchor rect,
+    /// xy="#z@loc", instead of by coordinates
+    #[serde(default)]
+    pub anchored: u8,
 }
 
 const VARS: [(&str, &str); 3] = [("who", "World"), ("n", "42"), ("sym", "a&b<c>")];
@@ -79,12 +83,14 @@ fn fam_cases(_t: Tier) -> BoxedStrategy<Case> {
             any::<bool>(),
             any::<bool>(),
             any::<u8>(),
+            0u8..24,
         ),
     )
-        .prop_map(|((shape, g, carrier, pieces), (loc, side, vertical, pre, offset, delta, d, lsp, text_style, extras))| {
+        .prop_map(|((shape, g, carrier, pieces), (loc, side, vertical, pre, offset, delta, d, lsp, text_style, extras, anchored))| {
+            let anchored = if shape % 9 == 8 && loc.is_some() && anchored <= 9 { anchored } else { 0 };
             // the svgdx-only pseudo elements <point> and <box> take text through the attribute only (content form is not documented for them)
             let carrier = if matches!(shape % 9, 6 | 7) { 0 } else { carrier };
-            Case { shape, g, carrier, pieces, loc, side, vertical, pre, offset, delta, d, lsp, text_style, extras }
+            Case { shape, g, carrier, pieces, loc, side, vertical, pre, offset, delta, d, lsp, text_style, extras, anchored }
         })
         .boxed()
 }
@@ -164,6 +170,7 @@ pub fn case_xml(c: &Case) -> String {
             e.set("xy2", format!("{} {}", num(x + w), num(y - h)));
         }
         4 | 5 => e.set("points", format!("{} {} {} {} {} {}", num(x), num(y), num(x + w), num(y + h / 2.0), num(x + w / 2.0), num(y + h))),
+        8 if c.anchored >= 1 => e.set("xy", format!("#z@{}", gen::LOCS[(c.anchored as usize - 1) % 9])),
         _ => e.set("xy", format!("{} {}", num(x), num(y))),
     }
     // unrelated presentation attributes and classes that must stay on the shape
@@ -225,10 +232,38 @@ pub fn case_xml(c: &Case) -> String {
     let t = author_text(c);
     match c.carrier % 3 {
         0 => e.set("text", t),
+        // element content, partly spelled with numeric character references (every non-ASCII character and some others)
+        1 if c.extras & 0x80 != 0 => {
+            let mut raw = String::new();
+            for (i, ch) in t.chars().enumerate() {
+                match ch {
+                    '&' => raw.push_str("&amp;"),
+                    '<' => raw.push_str("&lt;"),
+                    '>' => raw.push_str("&gt;"),
+                    c2 if !c2.is_ascii() || (c2.is_ascii_alphanumeric() && i % 3 == 0) => {
+                        if i % 2 == 0 {
+                            raw.push_str(&format!("&#{};", c2 as u32));
+                        } else {
+                            raw.push_str(&format!("&#x{:X};", c2 as u32));
+                        }
+                    }
+                    c2 => raw.push(c2),
+                }
+            }
+            e.kids.push(X::Raw(raw));
+        }
         1 => e.kids.push(X::Text(t)),
         _ => e.kids.push(X::Raw(format!("<![CDATA[{}]]>", t.replace("]]>", "]] >")))),
     }
     let vars = XEl::new("var").a(VARS[0].0, VARS[0].1).a(VARS[1].0, VARS[1].1).a(VARS[2].0, VARS[2].1);
+    if c.shape % 9 == 8 && c.anchored >= 1 {
+        // the anchor rect lies so that its chosen location is the point (x, y)
+        let l = gen::LOCS[(c.anchored as usize - 1) % 9];
+        let fx = if l.contains('l') { 0.0 } else if l.contains('r') { 1.0 } else { 0.5 };
+        let fy = if l.contains('t') { 0.0 } else if l.contains('b') { 1.0 } else { 0.5 };
+        let z = XEl::new("rect").a("id", "z").a("xy", format!("{} {}", num(x - fx * 10.0), num(y - fy * 6.0))).a("wh", "10 6");
+        return gen::svg_root(vec![vars, z, e]).to_xml();
+    }
     gen::svg_root(vec![vars, e]).to_xml()
 }
 
